@@ -386,7 +386,7 @@ def oracle_feed_call(c, tol=1e-9, effs=None, supply=None):
             bad.append(("fed-count", "animals fed %r is not the herd %r scaled by the delivered fraction %r (within half an animal)" % (fed, pop, frac)))
     else:
         if abs(fed - pop) > sp:
-            bad.append(("fed-count", "no requirement but %r of %r counted as fed" % (fed, pop)))
+            bad.append(("fed-count-no-requirement", "no requirement but %r of %r counted as fed" % (fed, pop)))
     return bad
 
 
